@@ -148,7 +148,8 @@ Definition rest_put (b : list member) : outcome :=
    unescaped, in the raw text.  Repaired: a raw text containing a backslash is always decoded. *)
 Definition blip_check_fixed : bool := true.
 
-Definition blip_disallowed : list bytes := [k_sync; k_id; k_rev; k_deleted; k_revisions].
+(* _cv joined both lists with the repair d51088e; the lists as found are blip_disallowed_of false / import_disallowed_of false in Accept.v *)
+Definition blip_disallowed : list bytes := [k_sync; k_id; k_rev; k_cv; k_deleted; k_revisions].
 
 Definition visible (fixed : bool) (m : member) : bool := fixed || negb (mesc m).
 
@@ -180,7 +181,7 @@ Definition blip_rev_gen (fixed : bool) (b : list member) : outcome :=
    member that is neither null nor an object makes that fail (500 on the read that triggered the import);
    then validateImportBody, then validateNewBody; a body carrying _sync is not an importable document.
    Refusals other than the first show as 404 on the triggering read. *)
-Definition import_disallowed : list bytes := [k_id; k_rev; k_exp; k_revisions].
+Definition import_disallowed : list bytes := [k_id; k_rev; k_cv; k_exp; k_revisions].
 
 Definition import_doc (b : list member) : outcome :=
   if match kind_of k_sync b with Some KNull | Some KObj | None => false | Some _ => true end then ORej 500
